@@ -143,6 +143,8 @@ pub enum Op {
     /// dropped from inside the waker, as an executor does with a cancelled task)
     ConsumeInline { slot: u8, drop_on_wake: bool },
     DropPipe { slot: u8 },
+    /// change the back-pressure depth of an existing pipe (items may already be buffered)
+    SetDepth { slot: u8, depth: u8 },
     /// a scheduling attempt under catch_unwind (used on panicked objects)
     Attempt { o: u8, kind: AttemptKind, id: OpId },
 }
@@ -328,6 +330,7 @@ pub fn fmt_op(op: &Op) -> String {
         Op::Pipe { o, s, depth, body, slot, id } => format!("#{} p{}=pipe(o{}, s{}, depth {}){{{}}}", id, slot, o, s, depth, fmt_steps(body)),
         Op::Consume { slot, k } => format!("consume p{} x{}", slot, k),
         Op::AwaitInline { slot } => format!("await-inline f{}", slot),
+        Op::SetDepth { slot, depth } => format!("set-depth p{} {}", slot, depth),
         Op::ConsumeInline { slot, drop_on_wake } => format!("consume-inline p{}{}", slot, if *drop_on_wake { " (dropped by its first wake-up)" } else { "" }),
         Op::DropPipe { slot } => format!("drop p{}", slot),
         Op::Attempt { o, kind, id } => format!("#{} attempt {:?}(o{})", id, kind, o),
